@@ -83,6 +83,7 @@ type Engine struct {
 	mutGlobals  map[string]bool
 	freshObjs   []string
 	fnModCache  map[*ssa.Function]*modSet
+	ifaceImplCache map[string]bool
 	neverClosedSends map[string]int
 }
 
@@ -635,6 +636,7 @@ func (e *Engine) execSimple(st *State, fr *Frame, ins ssa.Instruction) {
 		if _, isStruct := elem.Underlying().(*types.Struct); isStruct && x.Heap && !isOpaque(elem) {
 			// escaping struct allocations live in the heap arrays so that every alias sees the same fields
 			obj := e.smt.Fresh("obj", SU)
+			e.smt.Distinct(obj)
 			st.assume(mkNot(mkEq(obj, "nil")))
 			e.freshObjs = append(e.freshObjs, obj)
 			loc := &Loc{Kind: LHeap, Obj: obj, Root: elem, T: elem}
